@@ -277,7 +277,7 @@ func (o *c01Obs) After(w *wWorld, st *wStep) *kit.Viol {
 			// The process died at a store-call boundary inside this publish: nothing sent after
 			// that point reached anybody. The number may or may not have been consumed.
 			t.crashed[s.Token] = true
-			t.slack = 1
+			t.slack++ // every publish cut short by a crash may have consumed one number
 			o.features["crash"] = true
 			o.afterCrash[s.Route] = true
 			continue
@@ -324,11 +324,11 @@ func (o *c01Obs) After(w *wWorld, st *wStep) *kit.Viol {
 					return v
 				}
 			}
-			if a.seq != want && !(i == 0 && t.slack > 0 && a.seq == want+t.slack) {
+			if a.seq != want && !(i == 0 && t.slack > 0 && a.seq > want && a.seq <= want+t.slack) {
 				return kit.V("ack-not-next", "topic %s: publish %s acknowledged as #%d, expected #%d (last issued %d, %d concurrent acks %v)", route, a.tok, a.seq, want, t.last, len(as), as)
 			}
 			if i == 0 && a.seq != want {
-				t.last += t.slack
+				t.last = a.seq - 1
 			}
 			if prev, dup := t.bySeq[a.seq]; dup && prev != a.tok {
 				return kit.V("number-issued-twice", "topic %s: #%d acknowledged for %s was already used by %s", route, a.seq, a.tok, prev)
@@ -411,7 +411,7 @@ func (o *c01Obs) After(w *wWorld, st *wStep) *kit.Viol {
 					}
 					return v
 				}
-				if got != t.last && !(t.slack > 0 && got == t.last+t.slack) {
+				if got != t.last && !(t.slack > 0 && got > t.last && got <= t.last+t.slack) {
 					return kit.V("desc-seq-mismatch", "{get desc} on %s shows seq %d, last issued number is %d", s.Route, got, t.last)
 				}
 			}
